@@ -82,7 +82,9 @@ def checked_positions(count):
   return sorted(set([count - 1, count - 2, (2 * count) // 3]))
 
 
-def grid_case(target, nr, nrho=None, fp_timeout_s=60):
+def grid_case(target, nr, nrho=None, fp_timeout_s=60, exact_points=False):
+  """exact_points: the property pins the evaluation point as (i*cutoff)/(nr-1) (GULP): the Float64 term of every checked point must
+  be that term (structurally, or no Float64 cutoff tells them apart)."""
   nrho = nrho or nr
   res = new_result("evaluation points under floating point: %s nr=%d" % (target, nr))
   spec = grid_spec(target, nr, nrho)
@@ -158,6 +160,16 @@ def grid_case(target, nr, nrho=None, fp_timeout_s=60):
       else:
         res["inconclusive"].append("%s: a row count is derived from floating-point values; no Float64 witness for a wrong count was found within the budget" % target)
       return res
+    if not suspicious and exact_points:
+      hit = _exact_points(target, nr, nrho, spec, fp_timeout_s, res)
+      if hit is not None:
+        confirmed, desc, rec = hit
+        res["replays"] += 1
+        if confirmed:
+          res["violations"].append(dict(key="fpgrid-exact-%s" % target, desc=desc, record=rec))
+        else:
+          res["inconclusive"].append("exact evaluation points: Float64 witness did not show in the written table (%s)" % desc)
+      return res
     if not suspicious:
       return res
     # ---- stage 2: bit-precise witness search for the positions not shown to hold
@@ -204,6 +216,62 @@ def grid_case(target, nr, nrho=None, fp_timeout_s=60):
   else:
     res["inconclusive"].append("Float64 witness %s=%r for %s did not show in the written table (%s)" % ("cutoff" if which == "r" else "cutoff_rho", cv, target, desc))
   return res
+
+
+def _exact_points(target, nr, nrho, spec, fp_timeout_s, res):
+  """(shims installed by the caller) Float64 run; each checked evaluation point against fpDiv(fpMul(i, cutoff), nr-1)"""
+  ex = core.Explorer(max_paths=2, query_timeout_ms=2000, max_seconds=fp_timeout_s + 60)
+  for p in ex.iter_paths(lambda: run_symbolic(target, nr, nrho, "fp"), catch=(Exception,)):
+    if p.exc is not None or p.aborted:
+      continue
+    for kind, (first, count, div, which) in spec.items():
+      xs = [x for (nm, x) in p.value if nm == kind][:count]
+      cut = z3.FP("cutoff" if which == "r" else "cutoff_rho", fpalg.F64)
+      for k in sorted(set([1, 3, count // 2, count - 2, count - 1])):
+        i = first + k
+        if i <= 0 or k >= len(xs) or not hasattr(xs[k], "t"):
+          continue
+        ref = z3.fpDiv(fpalg.RNE, z3.fpMul(fpalg.RNE, fpalg.fpv(float(i)), cut), fpalg.fpv(float(div)))
+        arg = xs[k].t
+        res["vcs"] += 1
+        if z3.simplify(arg).eq(z3.simplify(ref)):
+          res["unsat"] += 1
+          continue
+        s = z3.SolverFor("QF_FP")
+        s.set("timeout", int(min(fp_timeout_s, 30) * 1000))
+        for cnd in p.pc:
+          s.add(cnd)
+        s.add(z3.Not(z3.fpEQ(arg, ref)))
+        r = s.check()
+        res["queries"] += 1
+        res[str(r)] += 1
+        if r != z3.sat:
+          continue      # (unsat, or not decided within the budget: the tolerance stage above stands)
+        cv = float(z3.simplify(z3.fpToReal(s.model().eval(cut, model_completion=True))).as_fraction())
+        return replay_exact(target, nr, nrho, kind, k, i, div, which, cv)
+  return None
+
+
+def replay_exact(target, nr, nrho, kind, k, i, div, which, cv):
+  """Concrete: a potential stepping exactly at (i*cutoff)/(nr-1); the row for that point must hold the value at the step"""
+  from atsim.potentials import Potential
+  from atsim.potentials import pair_tabulation as pt
+  from readers import pairtables
+  if target != "GULP":
+    return False, "exact mode is defined for GULP only", dict()
+  ref = (i * cv) / float(div)
+  log = []
+  make(target, nr, nrho, cv, 50.0, log).write(io.StringIO())
+  x = [a for (nm, a) in log if nm == kind][k]
+  if x == ref:
+    return False, "evaluation point equals (i*cutoff)/(nr-1) for cutoff %r" % cv, dict(cutoff=cv)
+  edge = ref if x < ref else math.nextafter(ref, math.inf)
+  out = io.StringIO()
+  pt.GULP_PairTabulation([Potential("A", "B", Step(edge))], cv, nr).write(out)
+  got = pairtables.read_gulp_spline(out.getvalue())[0]["rows"][k][0]
+  want = Step(edge)(ref)
+  return (abs(got - want) > 1e-6, "GULP table, cutoff %r, nr %d: row %d stands for r = %d*cutoff/(nr-1) = %r, where the potential (a step at %r) is %r; the table holds %r "
+          "because the function was evaluated at %r" % (cv, nr, k + 1, i, ref, edge, want, got, x), dict(cutoff=cv, nr=nr, row=k + 1, evaluated_at=x, grid_point=ref))
 
 
 def _count_witness(target, nr, nrho, fp_timeout_s, res):
